@@ -30,7 +30,7 @@ Exact(n, w) == \A p \in Pairs(n) : Key(p[1], p[2], n, w) = Lin(p, n)
 
 (* index types and size classes of the real-scale replay: "over32" = the smallest interesting system with N * N > 2^31 *)
 IndexTypes == {"int32", "int64"}
-SizeClasses == {"small", "over32"}
+SizeClasses == {"small", "over32", "blocks"}       \* "blocks": more than 2^22 element entries in one slot (a summation done block by block must add every block)
 Configs == [n : Sizes, w : Widths] \cup [itype : IndexTypes, size : SizeClasses]
 
 Init == cfg \in Configs
@@ -44,9 +44,17 @@ Threshold == Scaled(cfg) =>
     /\ Fits(cfg.n, cfg.w) <=> Exact(cfg.n, cfg.w)
     /\ Fits(cfg.n, cfg.w) <=> Monotone(cfg.n, cfg.w)
     /\ Fits(cfg.n, cfg.w) => Injective(cfg.n, cfg.w)
+(* summation by blocks of b entries: the blocks [st, min(st + b, n)) for st = 0, b, 2b, ... cover 0..n-1 exactly once; pairing the  *)
+(* starts with their successors (st_i, st_(i+1)) loses the last block - the claim PairedStartsCover is rejected by TLC                *)
+BlockStarts(n, b) == {kk * b : kk \in 0..((n - 1) \div b)}
+Block(n, b, st) == {i \in 0..(n - 1) : st <= i /\ i < st + b}
+BlocksCover == Scaled(cfg) => LET n == cfg.n * cfg.n  b == cfg.w IN UNION {Block(n, b, st) : st \in BlockStarts(n, b)} = 0..(n - 1)
+PairedStartsCover == Scaled(cfg) => LET n == cfg.n * cfg.n  b == cfg.w  S == BlockStarts(n, b)
+                                   IN UNION {{i \in 0..(n - 1) : st <= i /\ i < st + b} : st \in {x \in S : x + b \in S}} = 0..(n - 1)
 (* claim rejected by TLC in the negative self-test: "the keys only have to be injective" (they are for n = 3, w = 4: 9 > 8) *)
 InjectiveIsEnough == Scaled(cfg) => (Injective(cfg.n, cfg.w) => Monotone(cfg.n, cfg.w))
 (* what the implementation owes at real scale: keys exact in 64 bits for every index type *)
-Required(c) == [cfg |-> c, keyBits |-> 64, ndofAtLeast |-> IF c.size = "over32" THEN 46341 ELSE 1, ndofAtMost |-> IF c.size = "over32" THEN 60000 ELSE 2000]
+Required(c) == [cfg |-> c, keyBits |-> 64, ndofAtLeast |-> IF c.size = "over32" THEN 46341 ELSE IF c.size = "blocks" THEN 131073 ELSE 1,
+                ndofAtMost |-> IF c.size = "over32" THEN 60000 ELSE IF c.size = "blocks" THEN 160000 ELSE 2000]
 EmitOK == (Emit /\ ~Scaled(cfg)) => PrintT(<<"CASE", ToJson(Required(cfg))>>)
 =============================================================================
